@@ -167,7 +167,8 @@ def check_row(kind, grid, fn, seed, tables):
     # the function itself (real Calculate) at the published extremiser locations and at the two ends of the box
     for which, tab in (("min", tables["min"]), ("max", tables["max"])):
         tval, tloc = float(tab[fn][0]), float(tab[fn][1])
-        got = bench.real_eval(prob, [min(max(tloc, lo), hi)])
+        # (through a value holder that already holds another value: the caller may re-use one FunctionValue)
+        got = bench.real_eval(prob, [min(max(tloc, lo), hi)], dirty=(-7.5 if which == "min" else tval + 3.25))
         if not (abs(got - tval) <= 1e-4 + float(tables["lip"][fn]) * 1e-4 * rng):
             # (the location may be off by 1e-4 of the range: allow the table's own Lipschitz constant times that)
             fail(who + "the function takes the value %r at the published %simum location %r, the table says %r" %
